@@ -6,6 +6,10 @@
 (*   nodes : Seq(Node)   index = node id + 1; kind "Empty" = tombstone     *)
 (*   Node  == [kind, prev, next, child, key]   ids 0-based, -1 = none      *)
 (*   keys  : Key -> id of the note's Document node                         *)
+(*   index : RefIndex, a set of <<"b" | "i", target key, node id>>: block   *)
+(*           references (Reference nodes) and links inside the text of     *)
+(*           sections, leaves and tables.  Entries are only ever added     *)
+(*           (RefIndex::merge); queries drop the ids of tombstones.        *)
 (*                                                                         *)
 (* Actions, one per operation of the code:                                 *)
 (*   Update(k, t)       Graph::update_key / insert_document: delete_branch *)
@@ -26,16 +30,19 @@
 (***************************************************************************)
 EXTENDS Integers, Sequences, FiniteSets, SequencesExt, TLC
 
-CONSTANTS Keys, Catalogue, MaxOps, DeleteStopsAt, ReuseIds
+CONSTANTS Keys, Catalogue, MaxOps, DeleteStopsAt, ReuseIds, IndexStopsAt
 
-\* a tree is [k |-> kind, c |-> Seq(tree)]; the root has kind "D"
-VARIABLES nodes, keys, docs, ops, patch
+\* a tree is [k |-> kind, c |-> Seq(tree)], optionally with tgt (the note a Reference node points
+\* to) and refs (sequence of the notes linked from the node's text); the root has kind "D"
+VARIABLES nodes, keys, docs, ops, patch, index
 
-vars == <<nodes, keys, docs, ops, patch>>
+vars == <<nodes, keys, docs, ops, patch, index>>
 
 None == -1
 N(ns, id) == ns[id + 1]
-Empty == [kind |-> "Empty", prev |-> None, next |-> None, child |-> None, key |-> ""]
+Empty == [kind |-> "Empty", prev |-> None, next |-> None, child |-> None, key |-> "", tgt |-> 0, refs |-> {}]
+Tgt(t) == IF "tgt" \in DOMAIN t THEN t.tgt ELSE 0
+Refs(t) == IF "refs" \in DOMAIN t THEN {t.refs[i] : i \in 1..Len(t.refs)} ELSE {}
 
 (***************************************************************************)
 (* building a tree into an arena                                           *)
@@ -57,13 +64,14 @@ Emit(ts, cursor, asChild, base) ==
              me == [kind |-> t.k, prev |-> cursor,
                     next |-> IF Tail(ts) = <<>> THEN None ELSE after,
                     child |-> IF t.c = <<>> THEN None ELSE base + 1,
-                    key |-> ""]
+                    key |-> "", tgt |-> Tgt(t), refs |-> Refs(t)]
          IN  <<me>> \o kids \o rest
 
 \* Graph::build_key + insert_from_iter: the Document node, then its content as children
 BuildInto(ns, k, t) ==
     LET root == Len(ns)
-        doc == [kind |-> "D", prev |-> None, next |-> None, child |-> IF t.c = <<>> THEN None ELSE root + 1, key |-> k]
+        doc == [kind |-> "D", prev |-> None, next |-> None, child |-> IF t.c = <<>> THEN None ELSE root + 1, key |-> k,
+                tgt |-> 0, refs |-> {}]
     IN  ns \o <<doc>> \o Emit(t.c, root, TRUE, root + 1)
 
 (***************************************************************************)
@@ -84,9 +92,28 @@ RECURSIVE Shrink(_)
 Shrink(ns) == IF ns # <<>> /\ ns[Len(ns)].kind = "Empty" THEN Shrink(SubSeq(ns, 1, Len(ns) - 1)) ELSE ns
 
 (***************************************************************************)
+(* RefIndex::index_node: what indexing from node id adds.  A Document is   *)
+(* followed through its child, a Reference / Leaf / Raw / rule / Table     *)
+(* through next, sections, quotes and lists through both.  IndexStopsAt is *)
+(* the set of kinds after which the walk forgets `next` ({} = the code).   *)
+(***************************************************************************)
+RECURSIVE IW(_, _, _)
+IW(ns, id, fuel) ==
+    IF id = None \/ fuel = 0 THEN {}
+    ELSE LET n == N(ns, id) IN
+         (IF n.kind = "R" THEN {<<"b", n.tgt, id>>} ELSE {})
+         \cup (IF n.kind \in {"S", "L", "T"} THEN {<<"i", k, id>> : k \in n.refs} ELSE {})
+         \cup (IF n.kind \in {"D", "S", "Q", "BL", "OL"} THEN IW(ns, n.child, fuel - 1) ELSE {})
+         \cup (IF n.kind = "D" \/ n.kind \in IndexStopsAt THEN {} ELSE IW(ns, n.next, fuel - 1))
+IndexFrom(ns, id) == IW(ns, id, Len(ns) + 1)
+
+\* Graph::get_block_references_to / get_inline_references_to: the ids of tombstones are dropped
+IndexRefsTo(ix, ns, kind, k) == {e[3] : e \in {x \in ix : x[1] = kind /\ x[2] = k /\ x[3] < Len(ns) /\ N(ns, x[3]).kind # "Empty"}}
+
+(***************************************************************************)
 (* actions                                                                 *)
 (***************************************************************************)
-Init == nodes = <<>> /\ keys = [k \in {} |-> 0] /\ docs = [k \in {} |-> 0] /\ ops = 0 /\ patch = <<>>
+Init == nodes = <<>> /\ keys = [k \in {} |-> 0] /\ docs = [k \in {} |-> 0] /\ ops = 0 /\ patch = <<>> /\ index = {}
 
 SetKey(f, k, v) == [x \in DOMAIN f \cup {k} |-> IF x = k THEN v ELSE f[x]]
 
@@ -97,6 +124,8 @@ Update(k, t) ==
            base == IF ReuseIds THEN Shrink(cleared) ELSE cleared
        IN  /\ nodes' = BuildInto(base, k, t)
            /\ keys' = SetKey(keys, k, Len(base))
+           \* from_markdown: index the new version from its root and merge
+           /\ index' = index \cup IndexFrom(BuildInto(base, k, t), Len(base))
     /\ docs' = SetKey(docs, k, t)
     /\ ops' = ops + 1
     /\ patch' = <<>>
@@ -108,7 +137,7 @@ BuildAll(ns, ks) == IF ks = <<>> THEN ns ELSE BuildAll(BuildInto(ns, Head(ks), d
 MakePatch ==
     /\ patch = <<>> /\ DOMAIN keys # {}
     /\ patch' = BuildAll(<<>>, SortSeq(SetToSeq(DOMAIN keys), LAMBDA a, b : a < b))
-    /\ UNCHANGED <<nodes, keys, docs, ops>>
+    /\ UNCHANGED <<nodes, keys, docs, ops, index>>
 
 Next == \/ \E k \in Keys, t \in Catalogue : Update(k, t)
         \/ MakePatch
@@ -149,7 +178,18 @@ RECURSIVE Walk(_, _)
 Walk(ns, id) ==
     IF id = None THEN <<>>
     ELSE <<[k |-> N(ns, id).kind, c |-> Walk(ns, N(ns, id).child)]>> \o Walk(ns, N(ns, id).next)
-WalkIsLastVersion == \A k \in DOMAIN keys : Walk(nodes, N(nodes, keys[k]).child) = docs[k].c
+RECURSIVE Shape(_)
+Shape(ts) == [i \in 1..Len(ts) |-> [k |-> ts[i].k, c |-> Shape(ts[i].c)]]
+WalkIsLastVersion == \A k \in DOMAIN keys : Walk(nodes, N(nodes, keys[k]).child) = Shape(docs[k].c)
+
+\* C04 / C05 at the level of node ids: what the incrementally maintained index answers is what an
+\* index built from scratch over the live notes answers
+\* (Graph::import indexes every node of the arena: the ideal index is over the live nodes)
+FreshIndex == {<<"b", N(nodes, id).tgt, id>> : id \in {i \in Live(nodes) : N(nodes, i).kind = "R"}}
+              \cup UNION {{<<"i", k, id>> : k \in N(nodes, id).refs} : id \in {i \in Live(nodes) : N(nodes, i).kind \in {"S", "L", "T"}}}
+AllTargets == {e[2] : e \in index \cup FreshIndex}
+IndexIsFresh == \A kind \in {"b", "i"}, k \in AllTargets :
+                    IndexRefsTo(index, nodes, kind, k) = IndexRefsTo(FreshIndex, nodes, kind, k)
 
 \* action properties: an operation on one note leaves the nodes of the others alone,
 \* ids are never reused, the arena never shrinks
